@@ -411,3 +411,39 @@ Proof.
   - apply ext_text_tokenizes. exact Hl.
   - apply ext_round_trip_tokens; assumption.
 Qed.
+
+Lemma rd_conn_S_ser d f l : rd_conn d (S f) (Ser l) = Ser (map (rd_node d f) l).
+Proof. reflexivity. Qed.
+
+(* ---- the same for parse (the model of parse_cdc): stripping and the empty-circuit shortcut do not interfere --------------------- *)
+Theorem ext_parse (reg : registry) (d : nat) :
+  syms_unique reg = true ->
+  forall pf c n', lex_conn_ok reg d pf c = true -> xpconn reg pf (rd_conn d pf c) = Some n' -> 2 * pf <= depth_budget ->
+  parse reg (to_string reg (Some d) c pf) = Ok (top n').
+Proof.
+  intros Hu pf c n' Hl Hp Hd.
+  pose proof (ext_text_tokenizes reg d pf c Hl) as Htok.
+  pose proof (proj1 (ext_round_trip_tokens reg Hu pf (rd_conn d pf c) n' Hp Hd)) as Hpt.
+  unfold to_string in *. destruct pf as [|f]; [discriminate|].
+  assert (Hfinish : forall s, pstrip s = s -> is_empty_circuit s = false -> tokenize s = Ok (xctoks reg (S f) (rd_conn d (S f) c)) ->
+                    parse reg s = Ok (top n')).
+  { intros s H1 H2 H3. unfold parse. rewrite H1, H2, H3. cbn [bind].
+    destruct c as [l|l]; cbn [rd_conn xctoks] in *; exact Hpt. }
+  apply Hfinish; [| |exact Htok]; clear Hfinish.
+  - destruct c as [l|l]; cbn [conn_string]; apply pstrip_id; reflexivity.
+  - destruct c as [l|l]; cbn [conn_string] in *; [|reflexivity].
+    destruct (flat_map (node_string f reg (Some d)) l) as [|x X'] eqn:EX.
+    + (* "[]" is two tokens; the tokens of a tree the parser accepts are at least three *)
+      exfalso. cbn [app] in Htok.
+      assert (Hc : tokenize [91%N; 93%N] = Ok [ptok KLBr; ptok KRBr]) by (vm_compute; reflexivity).
+      rewrite Hc in Htok. rewrite rd_conn_S_ser in Htok, Hp. inversion Htok as [Hlen].
+      apply (f_equal (@length _)) in Hlen. cbn [length] in Hlen. rewrite app_length in Hlen. cbn [length] in Hlen.
+      rewrite xpconn_S_ser in Hp.
+      remember (map (rd_node d f) l) as ml eqn:Eml. clear Eml.
+      destruct (flat_children (xpnode reg f) true ml) as [items|] eqn:Efc; [|discriminate Hp].
+      destruct (flat_children_inv _ _ _ _ Efc) as (l' & HF & ->).
+      destruct HF as [|y y' l0 l0' Hy _]; [cbn in Hp; discriminate Hp|].
+      cbn [flat_map] in Hlen. rewrite app_length in Hlen.
+      destruct (proj1 (xtoks_head reg f) y y' [] Hy) as (t & r & E & _). rewrite app_nil_r in E. rewrite E in Hlen. cbn [length] in Hlen. lia.
+    + cbn [app]. destruct X' as [|y r]; cbn [app]; apply nonempty3.
+Qed.
